@@ -85,6 +85,11 @@ fn check_calendar(index: u64, acc: &mut Acc) {
         if cal.contains(d) != exp {
             return fail(acc, format!("contains({d}) = {}, the data file says {exp}", cal.contains(d)));
         }
+        // strictly next member, from every date and not only from members
+        let next = listed.range(d + Duration::days(1)..).next().copied();
+        if cal.first_after(d) != next {
+            return fail(acc, format!("first_after({d}) = {:?}, next listed date is {next:?}", cal.first_after(d)));
+        }
         tests += 1;
         positives += u64::from(exp);
         d = d.succ_opt().unwrap();
@@ -192,7 +197,7 @@ fn check_selector_all(index: u64, acc: &mut Acc) {
 fn extra(tier: Tier, _seed: u64) -> Vec<SubOutcome> {
     let n = Country::ALL.len() as u64 * 2;
     let mut v = vec![
-        par_enumerate("calendars", "exhaustive: all 115 countries x {public, school}: ordered iteration and count() equal the set listed in the data file (read by the harness' own parser), contains() on every date 1990-01-01..2085-12-31 and on every listed date equals membership, first_after of every listed date is the next listed date; non-trivial = membership tests of listed dates", n, check_calendar),
+        par_enumerate("calendars", "exhaustive: all 115 countries x {public, school}: ordered iteration and count() equal the set listed in the data file (read by the harness' own parser), contains() on every date 1990-01-01..2085-12-31 and on every listed date equals membership, first_after of every date of that span and of every listed date is the next listed date; non-trivial = membership tests of listed dates", n, check_calendar),
         par_enumerate("codes", "exhaustive: all countries (code parses back to the country, codes unique) and all 676 two-letter strings in 7 spelling variants (lower case, padded, mixed case, doubled, truncated) plus malformed strings: accepted iff exactly a listed code; non-trivial = strings derived from a valid code", 1, check_codes),
     ];
     let _ = tier;
